@@ -185,8 +185,15 @@ impl Parser {
             Rule::dot_function_call => {
                 // a class is called (constructed) through the module that exports it; a FIELD whose type is a
                 // class holds an instance, which is not callable
-                let lhs_is_module = matches!(lhs_ty, TypeLayout::Module(..));
-                let Some(function_type) = type_of_property.is_callable_allow_class(lhs_is_module)
+                // (a module lists an exported class under the class's own name; any other member whose type
+                // is a class is an exported instance)
+                let is_class_of_module = matches!(lhs_ty, TypeLayout::Module(..))
+                    && matches!(
+                        type_of_property.get_type_recursively(),
+                        TypeLayout::Class(class_type) if class_type.name() == ident_str
+                    );
+                let Some(function_type) =
+                    type_of_property.is_callable_allow_class(is_class_of_module)
                 else {
                     return Err(vec![new_err(
                         ident_span,
